@@ -2,7 +2,7 @@
 Driver commands of properties C04 and C15 (core Lean only).  Command names start with "c04." / "c15."
 (the C15 handler in Hts/Drv/C15.lean re-uses the machinery defined here).
 
-  c04.codes <kind> <cfg> <recs>                         -> result code per Add (o r f p X), stops at X
+  c04.codes <kind> <cfg> <recs>                         -> result code per Add (o r f p n X), stops at X
   c04.add   <kind> <cfg> <recs>                         -> codes, digest of the written index
   c04.q     <kind> <cfg> <recs> <phase> <strategy> <qs> -> Chunks answers; phase pre | rt | merged
 
@@ -118,7 +118,8 @@ def addOne (st : St) (r : GRec) : St × AddRes :=
     (.tbx x.1 pool, x.2)
 
 def codeOf : AddRes → Char
-  | .ok => 'o' | .errRange => 'r' | .errRefOrder => 'f' | .errPosOrder => 'p' | .panicIndex => 'X'
+  | .ok => 'o' | .errRange => 'r' | .errRefOrder => 'f' | .errPosOrder => 'p' | .errNoRef => 'n'
+  | .panicIndex => 'X'
 
 /-- adds until the first panic -/
 def build (st : St) : List GRec → List Char → St × List Char
@@ -136,15 +137,13 @@ def writeSt : St → Bytes
 def rereadSt (st : St) (bs : Bytes) : Except Fault (Option St) :=
   match st with
   | .bai _ => match readBai bs with
-    | .ok (some i) => .ok (some (.bai i))
-    | .ok none => .ok none
+    | .ok i => .ok (some (.bai i))
     | .error e => .error e
   | .csi _ => match readCsi bs with
     | .ok i => .ok (some (.csi i))
     | .error e => .error e
   | .tbx _ pool => match readTabix bs with
-    | .ok (some t) => .ok (some (.tbx t pool))
-    | .ok none => .ok none
+    | .ok t => .ok (some (.tbx t pool))
     | .error e => .error e
 
 def parseStrategy (s : String) : Option (List Chunk → List Chunk) :=
